@@ -331,7 +331,14 @@ fn sig_for(labels: &[String], v: &Viol) -> String {
     let first = path.split(|c| c == '.' || c == '[').next().unwrap_or("");
     let last = path.rsplit('.').next().unwrap_or("").trim_end_matches("[]");
     match v.class.as_str() {
-        "copied-twice" | "conflated" => format!("C20|{}|{}", v.class, first),
+        // what kind of object is duplicated: the last key of the path that is not a resource name such as G0 / F1 (the route by
+        // which the walk reached it varies from case to case and is kept in the witness)
+        "copied-twice" | "conflated" => {
+            let comps: Vec<&str> = path.split('.').filter(|c| !c.is_empty()).map(|c| c.trim_end_matches("[]")).collect();
+            let is_res_name = |c: &str| c.len() <= 4 && c.chars().any(|x| x.is_ascii_digit());
+            let what = comps.iter().rev().find(|c| !is_res_name(c)).copied().unwrap_or(first);
+            format!("C20|{}|{}", v.class, what)
+        }
         // where the difference sits is named by the last two keys of the path (e.g. FontFile2.Length1), not by the resource
         // category the walk started from: the same defect reached through /Font or through /ExtGState is one finding
         "resource-differs" => {
